@@ -325,10 +325,10 @@ def run(ctx):
             ci += 1
             if ctx.mine(ci):
                 ex_history(ctx, list(ops), seed=ci % 5)
-    for j in range((2000 if thorough else 60) // ctx.nshards):
+    for j in range((8000 if thorough else 60) // ctx.nshards):
         r = ctx.rng("c11h", j)
         ex_history(ctx, [OPSET[int(k)] for k in r.integers(0, 6, int(r.integers(5, 12)))], seed=j)
-    n = (10000 if thorough else 240) // ctx.nshards
+    n = (40000 if thorough else 240) // ctx.nshards
     for j in range(n):
         r = ctx.rng("c11", j)
         case = gen_file_case(r)
